@@ -121,6 +121,24 @@ class Checker:
                     self.bad("simple-value:%s" % name, case, {"got": r.GetValue(), "want": want})
                 if (r.GetCategory(), r.GetUnit()) != (c, u):
                     self.bad("simple-result-quantity-not-left", case, {"got": repr(r)})
+            # an application subclass of Scalar (or of Array) on either side is a Scalar like any other
+            class AppScalar(Scalar):
+                pass
+
+            class AppArray(Array):
+                pass
+
+            for name, r, want, left_u in (
+                ("Scalar + subclass", Scalar(c, x, u) + AppScalar(c, y, v), x + conv_y, u), ("Scalar - subclass", Scalar(c, x, u) - AppScalar(c, y, v), x - conv_y, u),
+                ("subclass + Scalar", AppScalar(c, x, u) + Scalar(c, y, v), x + conv_y, u), ("subclass - subclass", AppScalar(c, x, u) - AppScalar(c, y, v), x - conv_y, u),
+            ):  # fmt: skip
+                ctx.ev()
+                if not abs(r.GetValue() - want) <= tol or (r.GetCategory(), r.GetUnit()) != (c, left_u):
+                    self.bad("simple-value:%s" % name, case, {"got": repr(r), "want": want})
+            rs = Array(c, [x, x], u) + AppArray(c, [y, y], v)
+            ctx.ev()
+            if not all(abs(g - (x + conv_y)) <= tol for g in rs.GetValues()) or rs.GetUnit() != u:
+                self.bad("simple-array-value:Array + subclass", case, {"got": repr(rs), "want": x + conv_y})
             ra = Array(c, [x, x], u) + Array(c, (y, y), v)
             ctx.ev()
             if not all(abs(g - (x + conv_y)) <= tol for g in ra.GetValues()) or ra.GetUnit() != u:
